@@ -1,7 +1,7 @@
 #!/bin/bash
 # seed sweep of all quick checks
 for s in 1 2 3 7 12345; do
-  for p in C01 C02 C03 C04 C05 C06 C07 C08 C09 C10 C11 C12 C13 C14 C15 C16 C17 C18 C19 C20 X01 X02 X03 X04; do
+  for p in C01 C02 C03 C04 C05 C06 C07 C08 C09 C10 C11 C12 C13 C14 C15 C16 C17 C18 C19 C20 X01 X02 X03 X04 X05; do
     out=$(VERIF_SEED=$s ./check $p --tier quick 2>&1 | grep -v "^WARN"); rc=$?
     echo "seed=$s $(echo "$out" | tail -1 | cut -c1-160)"
     echo "$out" | grep -E "^VIOLATION|MachineryError|Traceback" | head -3
